@@ -103,7 +103,38 @@ fn gen_cases(rng: &mut Rng, tier: Tier) -> Vec<Value> {
                 cfg.groups = false;
                 cfg.jobs = (8, 18);
             }
+            // one problem in twelve: every shift has TWO reloads told apart by their tags, small capacities (several reload
+            // intervals per tour) and every tour of a first solve is pinned by a sequence / strict relation that lists all its reloads
+            let two_reloads = i % 12 == 3;
+            if two_reloads {
+                cfg = GenCfg::basic();
+                cfg.metric = true;
+                cfg.reloads = true;
+                cfg.tags = true;
+                cfg.jobs = (10, 16);
+                cfg.types = (1, 2);
+                cfg.vehicles_per_type = (1, 2);
+                cfg.time_windows = false;
+            }
             let mut sp = gen_problem(rng, &cfg);
+            if two_reloads {
+                for v in sp.vehicles.iter_mut() {
+                    v.capacity = v.capacity.iter().map(|_| rng.range(2, 4)).collect();
+                    for s in v.shifts.iter_mut() {
+                        let loc = s.start_loc;
+                        s.reloads = ["rlA", "rlB"]
+                            .iter()
+                            .map(|tag| SPlace { loc, dur: rng.range(0, 10), tws: vec![], tag: Some(tag.to_string()), resource: None })
+                            .collect();
+                    }
+                }
+                for j in sp.jobs.iter_mut() {
+                    for t in j.tasks.iter_mut() {
+                        t.demand = t.demand.iter().map(|_| 1).collect();
+                    }
+                }
+                return json!({"k": "solve", "sp": sp, "row": i, "gens": gens, "relations": true, "rel_full": true, "rseed": rng.next() % 1000});
+            }
             if ordered {
                 for job in sp.jobs.iter_mut().filter(|j| j.tasks.len() == 1) {
                     if rng.chance(5, 6) {
@@ -216,7 +247,7 @@ fn exec(case: &Value) -> Value {
         };
         let first = isolated(1, move || solve_default(problem, quiet_env(), 20)).expect("first solve panicked");
         if let Ok((_, sol)) = first {
-            sp.relations = derive_relations(&sp, &sol, case["rseed"].as_u64().unwrap_or(0));
+            sp.relations = derive_relations_opts(&sp, &sol, case["rseed"].as_u64().unwrap_or(0), case["rel_full"].as_bool().unwrap_or(false));
             sp_final = serde_json::to_value(&sp).unwrap();
             if case["k"] == "init" {
                 // the first solution with the LAST customer job of one relation taken out of its tour and listed as unassigned
